@@ -547,8 +547,15 @@ func runMain(args []string) int {
 			defer wg.Done()
 			from := int64(k)
 			journal := filepath.Join(*work, fmt.Sprintf("journal-%d", k))
+			// a worker process handles at most recycle histories: reflect
+			// caches every dynamic struct / func type for the life of a process
+			const recycle = 12000
 			for from < tc.Runs {
-				r := runWorker(*prop, *seed, from, tc.Runs, int64(W), thorough, journal, deadline)
+				to := from + recycle*int64(W)
+				if to > tc.Runs {
+					to = tc.Runs
+				}
+				r := runWorker(*prop, *seed, from, to, int64(W), thorough, journal, deadline)
 				if r.err != nil {
 					mu.Lock()
 					harnessErr = fmt.Errorf("%v\n%s", r.err, r.stderr)
@@ -557,7 +564,12 @@ func runMain(args []string) int {
 				}
 				if !r.crashed {
 					merge(r.sum)
-					return
+					if time.Now().Unix() > deadline {
+						return
+					}
+					// next chunk of this worker's residue class
+					from = from + ((to-from+int64(W)-1)/int64(W))*int64(W)
+					continue
 				}
 				if r.sum != nil {
 					merge(r.sum)
